@@ -10,9 +10,9 @@ checked by the other half of C03 (not in this file).
 """
 from ..runner import Stream
 from . import c09, c08leaf
+from .. import p2loop
 
-# wp-s1phi0: PcProps/C03Leaf.lean (S1 / Phi0: the OpenMP reduction is independent of the distribution of the iterations)
-EXTRA_MODULES = ["C03Leaf"]
+# extra property files PcProps/C03Leaf.lean, C03P2.lean are auto-discovered by the runner
 
 RULE = ("same range handed out under team sizes 1..64 x seeded return orders x print on/off x duration alphabets; "
         "every complete history must sum to f[start,limit) (closed form), model must accept and agree on chunk count, "
@@ -21,6 +21,9 @@ TRUSTED = c09.TRUSTED + ["omp_set_lock mutual exclusion, OpenMP reduction(+) and
                          "semantics (modelled as: get_work atomic, partial sums added in any order, linearizable counter)"]
 ASSUMPTIONS = c09.ASSUMPTIONS + ["per-chunk function additive over adjacent intervals (established for the real "
                                  "per-chunk functions by chunk_additive in the other half of C03)"]
+
+RULE += "; " + p2loop.RULE_C03
+TRUSTED = TRUSTED + p2loop.TRUSTED_P2B
 
 THREADS = (1, 2, 3, 5, 8, 17, 33, 64)
 
@@ -57,7 +60,7 @@ def streams(ctx):
             for pr in (0, 1):
                 ac.append("lbac %d %d %d %d %d %d %d %d" % (sq, y, t, pr, rng.getrandbits(32), cap, rng.choice((0, 1, 2, 3)), 0))
     return [c09.make_stream("lbs2-teams", s2, ctx=ctx), c09.make_stream("lbp2-teams", p2, ctx=ctx),
-            c09.make_stream("lbac-teams", ac, ctx=ctx)] + granted_streams(ctx) + c08leaf.c03_streams(ctx)
+            c09.make_stream("lbac-teams", ac, ctx=ctx)] + granted_streams(ctx) + c08leaf.c03_streams(ctx) + p2loop.c03_streams(ctx)
 
 
 def granted_streams(ctx):
